@@ -38,6 +38,27 @@ def mean_field_shift(inp):
     return f(inp)
 
 
+def mean_field_methods_agree(inp):
+    """MeanFieldTempo with a decoupled bath against compute_dynamics_with_field, for a field equation of motion that depends
+    EXPLICITLY on time and a Hamiltonian that depends on the field, start_time != 0: same states and fields"""
+    import numpy as np
+    import oqupy
+    sx, sz = oqupy.operators.sigma('x'), oqupy.operators.sigma('z')
+    corr = oqupy.PowerLawSD(alpha=0.0, zeta=1.0, cutoff=3.0, cutoff_type='exponential', temperature=0.2)
+    bath = oqupy.Bath(0.5 * sz, corr)
+    par = oqupy.TempoParameters(dt=0.1, dkmax=3, epsrel=1e-10)
+    rho0 = oqupy.operators.spin_dm('y+')
+    t0 = 0.3
+    sysf = oqupy.TimeDependentSystemWithField(lambda t, a: (0.4 + 0.3 * np.sin(2 * t)) * sx + 2.0 * a.real * sz)
+    mfs = oqupy.MeanFieldSystem([sysf], lambda t, states, a: -0.2j * a + 1.5 * t ** 2 + 0.3 * np.trace(states[0] @ sx).real)
+    mf = oqupy.MeanFieldTempo(mean_field_system=mfs, bath_list=[bath], initial_state_list=[rho0], initial_field=0.2 + 0.1j, start_time=t0, parameters=par)
+    d1 = mf.compute(end_time=t0 + 0.6, progress_type='silent')
+    d2 = oqupy.compute_dynamics_with_field(mfs, initial_field=0.2 + 0.1j, dt=0.1, num_steps=6, start_time=t0, initial_state_list=[rho0], progress_type='silent')
+    ds = float(np.abs(np.array(d1.system_dynamics[0].states) - np.array(d2.system_dynamics[0].states)).max())
+    df = float(np.abs(np.array(d1.fields) - np.array(d2.fields)).max())
+    return {'violates': ds > 1e-8 or df > 1e-8, 'max deviation of the states': ds, 'max deviation of the fields': df}
+
+
 def field_free_reduces_to_tempo(inp):
     """a system that ignores the field, with an EXPLICITLY time dependent Hamiltonian and start_time != 0: MeanFieldTempo must
     give the states of plain Tempo (same propagators at the same times)"""
@@ -88,4 +109,4 @@ def lindbladian(inp):
 
 
 # thorough tier (bounded native sweeps): (function, inputs, obligation of the open finding it reproduces or None)
-THOROUGH = [('lindbladian', {}, None), ('field_linear_time', {}, None), ('field_free_reduces_to_tempo', {}, None)]
+THOROUGH = [('lindbladian', {}, None), ('field_linear_time', {}, None), ('field_free_reduces_to_tempo', {}, None), ('mean_field_methods_agree', {}, None), ('mean_field_shift', {}, None)]
